@@ -73,7 +73,15 @@ func ClearTextPassword(validate func(ctx context.Context, database, username, pa
 		}
 
 		if !valid {
-			return ctx, ErrorCode(writer, pgerror.WithCode(errors.New("invalid username/password"), codes.InvalidPassword))
+			// NOTE: the error is reported to the client and returned, the
+			// connection has to be closed and should never be served.
+			err = pgerror.WithSeverity(pgerror.WithCode(errors.New("invalid username/password"), codes.InvalidPassword), pgerror.LevelFatal)
+			werr := writeErrorResponse(writer, err)
+			if werr != nil {
+				return ctx, werr
+			}
+
+			return ctx, err
 		}
 
 		return ctx, writeAuthType(writer, authOK)
